@@ -95,7 +95,10 @@ class Walker:
 
     def req_op(self, allow_schedule=True):
         k = self.rnd.choice(self.kinds + (["schedule"] if allow_schedule else []))
-        return "req:%s:%d:%d" % (k, self.dest(), self.payload())
+        d = self.dest()
+        if k == "schedule" and d == 1:
+            d = 2           # scheduling the root is meaningless (the registries assert a parent fork)
+        return "req:%s:%d:%d" % (k, d, self.payload())
 
     def plan_op(self):
         r = self.rnd.randint(1, self.fl.rc)
@@ -201,12 +204,13 @@ class Walker:
                     elif c < 0.8 and budget > 0:
                         ops.append(self.req_op()); budget -= 1
                     elif self.profile["plans"]:
-                        ops.append(rnd.choice(["succeed:%d" % s, "fail:%d" % s, self.plan_op()]))
+                        ops.append(rnd.choice(["succeed:%d" % s, "fail:%d" % s, self.plan_op()]) if base == "exitGuard" else self.plan_op())
                 else:
                     if c < 0.45 and budget > 0:
                         ops.append(self.req_op()); budget -= 1
                     elif c < 0.75 and self.profile["plans"]:
-                        t = s if rnd.random() < 0.7 else self.dest()
+                        # marks are only put on states that are active (S_::deepEnter asserts that an entered state has none)
+                        t = s if (rnd.random() < 0.7 or not active) else rnd.choice([a for a in active if a != 1] or [s])
                         ops.append(rnd.choice(["succeed:%d", "succeed:%d", "fail:%d"]) % t)
                     elif c < 0.85 and base in REACT_METHODS:
                         ops.append("consume")
@@ -275,9 +279,11 @@ class Walker:
                     rec = call(self.rets() + self.hooks("imm", active, qlen),
                                "imm %s %d %d" % (rnd.choice(self.kinds), self.dest(), self.payload()))
                 elif c < 0.78 and room:
-                    rec = call([], "queue %s %d %d" % (rnd.choice(self.kinds + ["schedule"]), self.dest(), self.payload()))
+                    qk = rnd.choice(self.kinds + ["schedule"])
+                    rec = call([], "queue %s %d %d" % (qk, max(2, self.dest()) if qk == "schedule" else self.dest(), self.payload()))
                 elif c < 0.86 and self.profile["plans"]:
-                    t = rnd.choice(active) if rnd.random() < 0.8 else self.dest()
+                    # R_::succeed()/fail() CHECK `ROOT_ID < stateId`: the root cannot succeed, so it is never addressed from outside
+                    t = rnd.choice([a for a in active if a != 1] or [2])
                     rec = call([], "%s %d" % (rnd.choice(["succeed", "succeed", "fail"]), t))
                 elif c < 0.94 and self.profile["plans"]:
                     op = self.plan_op().split(":")
@@ -485,7 +491,8 @@ def replica_walk(fx, exe, out_path, seed, records, profile=None):
             elif c < 0.75 and qlen < w.fl.cc:
                 a = on_slot(0, rets + w.hooks("imm", active, qlen), "imm %s %d %d" % (rnd.choice(w.kinds), w.dest(), w.payload()))
             elif qlen < w.fl.cc:
-                a = on_slot(0, [], "queue %s %d %d" % (rnd.choice(w.kinds + ["schedule"]), w.dest(), w.payload()))
+                qk = rnd.choice(w.kinds + ["schedule"])
+                a = on_slot(0, [], "queue %s %d %d" % (qk, max(2, w.dest()) if qk == "schedule" else w.dest(), w.payload()))
             else:
                 a = on_slot(0, rets, "update")
             total += 1
